@@ -202,8 +202,9 @@ fn exec(case: &[String], out: &mut Out) {
 
 /// `!oracle transport_fault …` lines for every fault in the trace, classified by the loop region the
 /// real transport reported last (`shape=`): these are the defects the in-domain hypotheses exclude.
-pub fn fault_oracles(ops: &[String], trace: &[String], suite_tag: &str) -> Vec<String> {
+pub fn fault_oracles(ops: &[String], trace: &[String], suite_tag: &str) -> Vec<(usize, String)> {
 	let mut res = vec![];
+	let mut case_no = 0usize;
 	let mut last_loop: Option<(u64, u64)> = None;
 	let ops: Vec<&String> = ops
 		.iter()
@@ -216,6 +217,7 @@ pub fn fault_oracles(ops: &[String], trace: &[String], suite_tag: &str) -> Vec<S
 		}
 		if l.starts_with("case") {
 			last_loop = None;
+			case_no += 1;
 			continue;
 		}
 		if let Some(kind) = l.strip_prefix("fault ") {
@@ -230,9 +232,12 @@ pub fn fault_oracles(ops: &[String], trace: &[String], suite_tag: &str) -> Vec<S
 					_ => "in_domain".to_string(),
 				}
 			};
-			res.push(format!(
-				"!oracle {}_fault kind={} shape={} loop={:?} op={}",
-				suite_tag, kind, shape, last_loop, op
+			res.push((
+				case_no,
+				format!(
+					"!oracle {}_fault kind={} shape={} loop={:?} op={}",
+					suite_tag, kind, shape, last_loop, op
+				),
 			));
 			continue;
 		}
@@ -246,11 +251,36 @@ pub fn fault_oracles(ops: &[String], trace: &[String], suite_tag: &str) -> Vec<S
 	res
 }
 
+/// puts each extra `!oracle` line after the trace lines of its case (`extras`: 1-based case ordinal, line)
+pub fn insert_after_cases(trace: Vec<String>, extras: Vec<(usize, String)>) -> Vec<String> {
+	let mut out = Vec::with_capacity(trace.len() + extras.len());
+	let mut case_no = 0usize;
+	let flush = |out: &mut Vec<String>, c: usize| {
+		for (k, l) in &extras {
+			if *k == c {
+				out.push(l.clone());
+			}
+		}
+	};
+	for l in trace {
+		if l.starts_with("case") {
+			if case_no > 0 {
+				flush(&mut out, case_no);
+			}
+			case_no += 1;
+		}
+		out.push(l);
+	}
+	if case_no > 0 {
+		flush(&mut out, case_no);
+	}
+	out
+}
+
 pub fn run(ops: &[String]) -> Vec<String> {
-	let mut trace = run_cases(ops, Some(Duration::from_millis(1500)), exec);
+	let trace = run_cases(ops, Some(Duration::from_millis(1500)), exec);
 	let extra = fault_oracles(ops, &trace, "transport");
-	trace.extend(extra);
-	trace
+	insert_after_cases(trace, extra)
 }
 
 fn gen_case(rng: &mut Rng, out: &mut Vec<String>, stats: &mut Stats, n: u64, hang_budget: &mut u32) {
